@@ -12,6 +12,7 @@ mod rangelab;
 mod report;
 mod rng;
 mod schnorr;
+mod session;
 mod wire;
 
 use report::Ctx;
